@@ -36,10 +36,11 @@ Pair(k, c) == /\ running /\ ~Verified(k)
                       /\ sf' = IF Guard("sf_updated_on_pair") THEN 0 ELSE sf
                       /\ last' = <<"Pair", k, c, "ok">>
               /\ Quiet /\ UNCHANGED <<running, who, subs, val>>
-\* pair-verify as controller c (its message-level machine is Access.tla)
-Verify(k, c) == /\ running /\ ~Verified(k)
+\* pair-verify as controller c (its message-level machine is Access.tla), on a plaintext connection or again inside a
+\* session (the hand-over is HonestRun.tla's V3V4): a refusal leaves the connection as it was, subscriptions stay
+Verify(k, c) == /\ running
                 /\ LET ok == c \in paired \/ ~Guard("verify_needs_stored_key") IN
-                   /\ who' = [who EXCEPT ![k] = IF ok THEN c ELSE None]
+                   /\ who' = [who EXCEPT ![k] = IF ok THEN c ELSE @]
                    /\ last' = <<"Verify", k, c, IF ok THEN "ok" ELSE "refused">>
                 /\ Quiet /\ UNCHANGED <<running, paired, subs, val, sf, done>>
 Gate(k) == Verified(k) \/ ~Guard("authenticate_checks_verified")
